@@ -21,6 +21,17 @@ class archive(dict):
     def __repr__(self):
         return "%s(%s, cached=False)" % (self.__class__.__name__, self.__asdict__())
     __repr__.__doc__ = dict.__repr__.__doc__
+    def __eq__(self, y):
+        try:
+            if y.__module__ != self.__module__: return NotImplemented
+            return self.__asdict__() == y.__asdict__()
+        except: return NotImplemented
+    __eq__.__doc__ = dict.__eq__.__doc__
+    def __ne__(self, y):
+        y = self.__eq__(y)
+        return NotImplemented if y is NotImplemented else not y
+    __ne__.__doc__ = dict.__ne__.__doc__
+    __hash__ = None
     def copy(self, name=None): #XXX: always None? or allow other settings?
         "D.copy(name) -> a copy of D, with a new archive at the given name"
         adict = self.__class__()
